@@ -539,6 +539,14 @@ def np_arange(ex, args, kw):
         if isinstance(c, int):
             return Vec(list(range(c)))
         return NDArray([zmax(n, 0)], lambda idx: idx[0], "int")
+    if len(args) == 2 and not kw and all(is_intlike(a) or isinstance(a, int) for a in args):
+        # np.arange(start, stop) of integers: start, start + 1, ..., stop - 1
+        a0, a1 = args
+        c0, c1 = (as_const(a0) if is_z3(a0) else a0), (as_const(a1) if is_z3(a1) else a1)
+        if isinstance(c0, int) and isinstance(c1, int):
+            return Vec(list(range(c0, c1)))
+        n = zmax(to_z3(a1) - to_z3(a0), 0)
+        return NDArray([n], lambda idx, a0=a0: to_z3(a0) + to_z3(idx[0]), "int")
     raise Unsupported("np.arange with start/step")
 
 
